@@ -405,8 +405,12 @@ class PathEnumerator:
     """
 
     def __init__(self, cfg: CFG, nonempty: Optional[Callable[[ast.For, Dict[str, Any]], bool]] = None, limit: int = 50000, follow_exc: bool = False,
-                 atoms: bool = False):
+                 atoms: bool = False, atom_canon: Optional[Callable[[ast.AST], Tuple[str, bool]]] = None,
+                 opaque_ok: Optional[Callable[[ast.AST], bool]] = None, stop_at_raise: bool = False):
         self.cfg = cfg
+        self.atom_canon = atom_canon  # expression -> (canonical key, flipped?)
+        self.opaque_ok = opaque_ok  # expressions that may be treated as atoms although they contain calls
+        self.stop_at_raise = stop_at_raise
         self.atoms = atoms  # enumerate truth assignments of pure predicate atoms and keep them consistent along a path
         self.nonempty = nonempty or (lambda f, env: False)
         self.limit = limit
@@ -421,7 +425,7 @@ class PathEnumerator:
         while True:
             node = cfg.nodes[n]
             path = path + [n]
-            if n in (cfg.exit, cfg.raise_exit):
+            if n in (cfg.exit, cfg.raise_exit) or (self.stop_at_raise and node.kind == "raise_stmt"):
                 self.count += 1
                 if self.count > self.limit:
                     raise AnalysisError("path enumeration limit exceeded")
@@ -439,18 +443,18 @@ class PathEnumerator:
             if node.kind == "test":
                 v = self._eval(node.ast, env)
                 if v is UNKNOWN and self.atoms:
-                    unknown = [a for a in _pure_atoms(node.ast) if ("@" + _akey(a)) not in env and self._eval(a, env) is UNKNOWN]
+                    unknown = [a for a in self._atoms_of(node.ast) if ("@" + self._key(a)[0]) not in env and self._eval(a, env) is UNKNOWN]
                     seen_keys = []
                     uniq = []
                     for a in unknown:
-                        if _akey(a) not in seen_keys:
-                            seen_keys.append(_akey(a))
+                        if self._key(a)[0] not in seen_keys:
+                            seen_keys.append(self._key(a)[0])
                             uniq.append(a)
-                    if uniq and len(uniq) <= 6:
+                    if uniq and len(uniq) <= 7:
                         for bits in range(2 ** len(uniq)):
                             e2 = dict(env)
                             for i, a in enumerate(uniq):
-                                e2["@" + _akey(a)] = bool(bits >> i & 1)
+                                e2["@" + self._key(a)[0]] = bool(bits >> i & 1)
                             v2 = self._eval(node.ast, e2)
                             if v2 is UNKNOWN:
                                 outs = succ
@@ -507,6 +511,25 @@ class PathEnumerator:
                 yield from self._walk(s, path, env, loops_done)
             return
 
+    def _key(self, e: ast.AST) -> Tuple[str, bool]:
+        if self.atom_canon is not None:
+            return self.atom_canon(e)
+        return _akey(e), False
+
+    def _atoms_of(self, test: ast.AST) -> List[ast.AST]:
+        if isinstance(test, ast.BoolOp):
+            out: List[ast.AST] = []
+            for v in test.values:
+                out.extend(self._atoms_of(v))
+            return out
+        if isinstance(test, ast.UnaryOp) and isinstance(test.op, ast.Not):
+            return self._atoms_of(test.operand)
+        if isinstance(test, ast.Constant):
+            return []
+        if _is_pure(test) or (self.opaque_ok is not None and self.opaque_ok(test)):
+            return [test]
+        return []
+
     # -- tiny abstract domain ------------------------------------------------
     def _transfer(self, st: ast.AST, env: Dict[str, Any]) -> Dict[str, Any]:
         env = dict(env)
@@ -542,10 +565,11 @@ class PathEnumerator:
     def _eval(self, e: Optional[ast.AST], env: Dict[str, Any]) -> Any:
         if e is None:
             return UNKNOWN
-        if self.atoms and not isinstance(e, (ast.Constant, ast.BoolOp, ast.UnaryOp)):
-            k = "@" + _akey(e)
+        if self.atoms and not isinstance(e, (ast.Constant, ast.BoolOp)) and not (isinstance(e, ast.UnaryOp) and isinstance(e.op, ast.Not)):
+            key, flip = self._key(e)
+            k = "@" + key
             if k in env:
-                return env[k]
+                return (not env[k]) if flip else env[k]
         if isinstance(e, ast.Constant):
             return e.value
         if isinstance(e, ast.Name):
